@@ -90,6 +90,9 @@ def gen(tier, rng):
         for i in range(5000):
             kw = rz.random_resize_kw(rng, pts=ALPHA_PTS, algs=[("conv", 1), ("conv", 1), ("interp", 1), ("ss", 1), ("ss", 2), ("ss", 3)], maxdim=24)
             pt, sw, sh = kw["pt"], kw["sw"], kw["sh"]
+            bx, Qb = kw["box"] or (0, 0, kw["Q"] * sw, kw["Q"] * sh), kw["Q"]
+            if bx[0] % Qb == 0 and bx[1] % Qb == 0 and bx[2] == Qb * kw["dw"] and bx[3] == Qb * kw["dh"]:
+                continue        # Geometry!IsCopy: nothing is resampled, C12 demands the bit-exact copy (hidden colours included)
             a = image(pt, sw, sh, rng, "zero_some")
             b = recolour(pt, a, rng)
             g += 1
